@@ -118,6 +118,8 @@ def check_scheme_split(model, rep, rule):
     try:
         ex = MiniExec({'ischeme': 'a*b*c'})
         ex.env['str'] = str
+        from rules.c09 import _self_with_helpers
+        ex.env['self'] = _self_with_helpers(model, 'element:TensorReference', ex)
         ex.run(asg)
         got = (ex.env.get('ischeme1'), ex.env.get('ischeme2'))
     except (Unsupported, Exception) as e:
